@@ -15,6 +15,14 @@ def gen_random(cs, rnd, n):
         if cfg["unique"]:
             rows = PL.dup_rows(rnd, rows)[:40]
         PC.add_ref(cs, cfg, rows, rnd, spell=rnd.random() < 0.3)
+        if i % 10 == 0:
+            # --unique compares the selections column by column: the same values in other columns are another row
+            c2 = PL.sparse_cfg(rnd)
+            if rnd.random() < 0.4:
+                c2["take"], c2["skip"] = rnd.choice([1, 2, 3]), rnd.choice([0, 1])
+            if rnd.random() < 0.3:
+                c2["group"] = {"k": "merge", "e": PL.NOE}
+            PC.add_ref(cs, c2, PL.sparse_rows(rnd, rnd.choice([3, 6, 12])), rnd)
 
 
 def check(tier, seed, replay=None):
